@@ -119,7 +119,7 @@ Qed.
 Lemma qcost_le_wfuel mx s Q :
   NoDup Q -> (forall t, In t Q -> t < length (c_tb s))%nat -> (qcost (c_tb s) Q + 2 <= wfuel (mkx mx s))%nat.
 Proof.
-  intros Hnd Hlt. unfold wfuel. change (pw_tbody (mkx mx s)) with (c_tb s). rewrite <- qcost_all.
+  intros Hnd Hlt. rewrite wfuel_mkx. rewrite <- qcost_all.
   assert (qcost (c_tb s) Q <= qcost (c_tb s) (seq 0 (length (c_tb s))))%nat.
   { apply sum_sub; [exact Hnd|]. intros t Ht. apply in_seq. specialize (Hlt t Ht). lia. }
   lia.
